@@ -521,7 +521,10 @@ def planner_jobs(ck, tier):
         for b in ((700, 3000) if tier == "quick" else (300, 1500, 4000, 8000)):
             for pl in GEO + ROADMAP:
                 for e in TIE_ENVS:
-                    jobs.append((pl, e, s, min(b, 1000) if pl in ("LazyPRM", "LazyPRMstar") else b))
+                    # LazyLBTRRT: on lattice-valued states (many duplicates) its memory use explodes beyond ~1000 evaluations
+                    # (the process is killed, identically in both runs: C03's matter) — kept small here
+                    cap = 1000 if pl in ("LazyPRM", "LazyPRMstar") else 700 if pl == "LazyLBTRRT" else b
+                    jobs.append((pl, e, s, min(b, cap)))
     # a zero-extent dimension in a 3-D real vector space (random default projection computed from the bounds)
     for s in tie_seeds:
         for b in (300, 1500):
